@@ -26,10 +26,11 @@ type TimedScenario struct {
 	SlowUs   int
 	UnsubAt  int // microseconds after subscription (0 = never; sources without emissions always get one)
 	TermGap  int // microseconds to wait before the terminal
+	Variant  int // countedinterval: which constructor
 	CancelAt int // delay / delayeach: the subscription context (parent of every item context) is cancelled this many microseconds after subscription (0 = never)
 }
 
-var timedOps = []string{"delay", "delay", "delayeach", "timeout", "timeout", "interval", "intervalinitial", "timer", "throttle", "sample", "buffertime", "buffertimecount", "samplesource", "ctxtimeout"}
+var timedOps = []string{"delay", "delay", "delayeach", "timeout", "timeout", "interval", "intervalinitial", "timer", "throttle", "sample", "buffertime", "buffertimecount", "samplesource", "ctxtimeout", "countedinterval"}
 
 // OnlyTimedOp restricts GenTimed to one operator ("" = all).
 var OnlyTimedOp string
@@ -45,6 +46,10 @@ func GenTimed(r *rand.Rand) TimedScenario {
 		sc.P2 = 1000 * (1 + r.Intn(8))
 	case "buffertimecount":
 		sc.P2 = 1 + r.Intn(3)
+	case "countedinterval":
+		// the periodic sources with a count: RangeWithInterval (ascending, descending), RepeatWithInterval, RangeWithStepAndInterval
+		sc.P2 = 1 + r.Intn(4)
+		sc.Variant = r.Intn(4)
 	case "ctxtimeout":
 		sc.P2 = []int{0, sc.D / 2, 2 * sc.D, 3 * sc.D}[r.Intn(4)] // the pipeline is built this long before it is subscribed
 	}
@@ -89,13 +94,13 @@ func GenTimed(r *rand.Rand) TimedScenario {
 		sc.CancelAt = 1 + r.Intn(4*sc.D)
 	}
 	switch sc.Op {
-	case "interval", "intervalinitial", "timer", "samplesource":
+	case "interval", "intervalinitial", "timer", "samplesource", "countedinterval":
 		sc.Gaps = nil
 		sc.UnsubAt = sc.D*(2+r.Intn(5)) + r.Intn(sc.D)
 		if sc.Op == "intervalinitial" {
 			sc.UnsubAt += sc.P2
 		}
-		if (sc.Op == "interval" || sc.Op == "intervalinitial") && r.Intn(3) == 0 {
+		if (sc.Op == "interval" || sc.Op == "intervalinitial" || sc.Op == "countedinterval") && r.Intn(3) == 0 {
 			// the periodic sources watch the subscription context: cancelled well before the unsubscription, they fall silent
 			sc.CancelAt = 1 + r.Intn(sc.UnsubAt/2)
 			sc.UnsubAt += 6 * sc.D
@@ -149,6 +154,28 @@ func RunTimed(lg *rec.Log, sc TimedScenario, seed int64) []rec.Ev {
 		hasSource = false
 	case "timer":
 		o = ro.Map(func(v time.Duration) any { return int(v / time.Microsecond) })(ro.Timer(d))
+		hasSource = false
+	case "countedinterval":
+		// values are decoded to their index 0, 1, 2, ... (-1 = not the value the constructor's definition gives at that position)
+		n := int64(sc.P2)
+		k := 0
+		idx := func(ok bool) any {
+			k++
+			if !ok {
+				return -1
+			}
+			return k - 1
+		}
+		switch sc.Variant {
+		case 0:
+			o = ro.Map(func(v int64) any { return idx(v == 5+int64(k)) })(ro.RangeWithInterval(5, 5+n, d))
+		case 1:
+			o = ro.Map(func(v int64) any { return idx(v == 5-int64(k)) })(ro.RangeWithInterval(5, 5-n, d))
+		case 2:
+			o = ro.Map(func(v int) any { return idx(v == 7) })(ro.RepeatWithInterval(7, n, d))
+		default:
+			o = ro.Map(func(v float64) any { return idx(v == 1.0+0.5*float64(k)) })(ro.RangeWithStepAndInterval(1.0, 1.0+0.5*float64(n), 0.5, d))
+		}
 		hasSource = false
 	}
 	nrecv := 0
